@@ -9,7 +9,7 @@ mkdir -p work/bin evidence replays lean/RulesModel/Generated
 (cd extract && go build -o ../work/bin/extract .)
 REPO="${VERIF_REPO:-/repo}"
 ./work/bin/extract "$REPO" lean/RulesModel/Generated work/generated.json
-(cd lean && lake build)
+(cd lean && lake build) || echo "setup: not every Lean module builds against this tree (each check reports which of its obligations that concerns)"
 cp "$REPO/go.sum" harness/go.sum
 sed -i "s#^replace github.com/nikunjy/rules => .*#replace github.com/nikunjy/rules => $REPO#" harness/go.mod
 (cd harness && go build -tags verif -o ../work/bin/rulesharness .)
